@@ -709,7 +709,7 @@ package service
 //@   ensures[C12,closed-after-close] closed(sl.closeCh)
 
 //@ func (*virtualPacketConn).ReadFrom
-//@   props C12 C18 C19
+//@   props C12 C13 C18 C19
 //@   requires pc != nil && pc.closeCh != nil && pc.readCh != nil && !closed(pc.readCh)
 //@   ensures[C12,closed-handle-refuses] old(closed(pc.closeCh)) ==> result.2 != nil && result.1 == nil && result.0 == 0
 
@@ -726,13 +726,13 @@ package service
 //@   acquires-level 30
 //@   requires m != nil
 //@   ensures result.1 == nil ==> result.0 != nil
-//@   ensures[C10,C11,C12,handle-counted] result.1 == nil ==> int(m.count) == (int(atlock(m.count)) + 1) % 4294967296 && m.ln != nil
+//@   ensures[C10,C11,C12,handle-counted] result.1 == nil ==> m.count == atlock(m.count) + 1 && m.ln != nil
 //@   ensures[C10,C11,C12,failed-acquire-not-counted] result.1 != nil ==> m.count == atlock(m.count) && m.ln == atlock(m.ln)
 //@   trace[C12,socket-reused-when-open] never net.ListenTCP when atlock(m.ln) != nil
 
 // accept goroutine of a shared stream listener: owns acceptCh (the only sender and closer)
 //@ func (*multiStreamListener).Acquire$1
-//@   props C12 C18 C19
+//@   props C12 C13 C18 C19
 //@   goroutine
 //@   acquires-level 0
 //@   requires sharedLn != nil && sharedLn.ln != nil && acceptCh != nil && !closed(acceptCh)
@@ -755,7 +755,7 @@ package service
 //@   acquires-level 30
 //@   requires m != nil
 //@   ensures result.1 == nil ==> result.0 != nil
-//@   ensures[C10,C11,C12,handle-counted] result.1 == nil ==> int(m.count) == (int(atlock(m.count)) + 1) % 4294967296 && m.pc != nil
+//@   ensures[C10,C11,C12,handle-counted] result.1 == nil ==> m.count == atlock(m.count) + 1 && m.pc != nil
 //@   ensures[C10,C11,C12,failed-acquire-not-counted] result.1 != nil ==> m.count == atlock(m.count) && m.pc == atlock(m.pc)
 //@   trace[C12,socket-reused-when-open] never net.ListenPacket when atlock(m.pc) != nil
 
@@ -763,7 +763,7 @@ package service
 //@ pred chaninv_readCh(v readRequest) := v.respCh != nil && !closed(v.respCh)
 //@ pred chaninv_service_virtualPacketConn_readCh(v readRequest) := v.respCh != nil && !closed(v.respCh)
 //@ func (*multiPacketListener).Acquire$1
-//@   props C11 C12 C18 C19
+//@   props C11 C12 C13 C18 C19
 //@   goroutine
 //@   acquires-level 0
 //@   requires pc != nil && readCh != nil && doneCh != nil
